@@ -491,6 +491,59 @@ func (p *Program) sectionImpls() []sectionImpl {
 // wraps (a) a bytes.Buffer, whose Write never fails, or (b) a bufio.Writer,
 // whose first error is sticky and is reported by Flush — and Flush's result is
 // tested on every success path of the creator (R6).
+// bufioWrapper: f is a function of package zap that hands out a *bufio.Writer around one of its
+// parameters: on every return the result is bufio.NewWriter[Size](param, ...) or a writer on which
+// Reset(param) has just been called (`getMergeWriter(f)` drawing from a pool). Returns the index of that
+// parameter, or -1.
+func bufioWrapper(p *Program, f *ssa.Function) int {
+	if f == nil || !p.InZap(f) || len(f.Blocks) == 0 || f.Signature.Results().Len() != 1 {
+		return -1
+	}
+	if !isNamed(f.Signature.Results().At(0).Type(), "bufio", "Writer") {
+		return -1
+	}
+	idx := -1
+	for _, ret := range returnsOf(f) {
+		v := ret.Results[0]
+		var around ssa.Value
+		if call, ok := v.(*ssa.Call); ok {
+			if g := call.Call.StaticCallee(); g != nil && strings.HasPrefix(g.String(), "bufio.NewWriter") && len(call.Call.Args) > 0 {
+				around = call.Call.Args[0]
+			}
+		}
+		if around == nil {
+			// Reset(v, x) dominating the return
+			for _, cs := range callSites(f) {
+				if isCallTo(cs, "(*bufio.Writer).Reset") && len(cs.Common().Args) == 2 && sameValue(cs.Common().Args[0], v) &&
+					(cs.Block() == ret.Block() || cs.Block().Dominates(ret.Block())) {
+					around = cs.Common().Args[1]
+				}
+			}
+		}
+		if around == nil {
+			return -1
+		}
+		if mi, ok := around.(*ssa.MakeInterface); ok {
+			around = mi.X
+		}
+		prm, ok := around.(*ssa.Parameter)
+		if !ok {
+			return -1
+		}
+		k := -1
+		for i, pp := range f.Params {
+			if pp == prm {
+				k = i
+			}
+		}
+		if k < 0 || (idx >= 0 && idx != k) {
+			return -1
+		}
+		idx = k
+	}
+	return idx
+}
+
 func r7bSticky(c *RuleCtx) {
 	props := []string{"C17"}
 	isCHW := func(t types.Type) bool { return isNamed(t, zapPkgPath, "CountHashWriter") }
@@ -613,7 +666,7 @@ func r7bSticky(c *RuleCtx) {
 				kind = "bytes.Buffer"
 			}
 		case *ssa.Call:
-			if f := a.Call.StaticCallee(); f != nil && strings.HasPrefix(f.String(), "bufio.NewWriter") {
+			if f := a.Call.StaticCallee(); f != nil && (strings.HasPrefix(f.String(), "bufio.NewWriter") || bufioWrapper(c.p, f) >= 0) {
 				kind = "bufio.Writer"
 				// Flush on this writer must exist in the creator and be tested: R6 decides
 				// "Flush tested on every success path"; here we require that R6 had a Flush role.
